@@ -834,8 +834,8 @@ fn known_case(idx: u64, rng: &mut Rng, obs: &mut Obs) {
 mod calib;
 
 /// (quick, thorough) sizes of the random phases; the two scale together (see `floors`).
-const TEXT_CASES: (u64, u64) = (150_000, 4_000_000);
-const LIST_CASES: (u64, u64) = (300_000, 8_000_000);
+const TEXT_CASES: (u64, u64) = (150_000, 3_000_000);
+const LIST_CASES: (u64, u64) = (300_000, 6_000_000);
 
 impl Monitor for M {
     fn id(&self) -> &'static str {
